@@ -264,14 +264,24 @@ func caseTimeout(line string) time.Duration {
 // selector blow-ups that are known findings (5 s each, they hang by construction) are not retried.
 func execParent(line string) (res h.Result) {
 	res = execParentOnce(line)
-	if res.Impl == "hang" && strings.HasPrefix(res.Oracle, "hang-") && !strings.Contains(res.Oracle, "not run:") &&
+	timing := false // verdicts that rest on a deadline: no answer, no round trip, loop not taking, CPU probe
+	for _, p := range []string{"hang-", "not-serving-", "stuck-", "spin-"} {
+		timing = timing || strings.HasPrefix(res.Oracle, p)
+	}
+	if timing && !strings.Contains(res.Oracle, "not run:") &&
 		!strings.HasPrefix(res.Oracle, "hang-selector-blowup") && !strings.HasPrefix(res.Oracle, "hang-xpath-ancestor-axis") {
 		op := strings.Fields(line)[0]
-		hangs[op]-- // the verdict of the first attempt is withdrawn
+		if res.Impl == "hang" || strings.HasPrefix(res.Oracle, "hang-") {
+			hangs[op]-- // the verdict of the first attempt is withdrawn
+		}
 		first := res.Oracle
+		if cur != nil { // alone in a fresh process
+			cur.kill()
+			cur = nil
+		}
 		res = execParentOnce(line)
-		if res.Impl == "hang" {
-			res.Oracle += " [second attempt in a fresh process; first: " + h.OneLine(first) + "]"
+		if res.Oracle != "" {
+			res.Oracle += " [second attempt, alone in a fresh process; first: " + h.OneLine(first) + "]"
 		}
 	}
 	return
